@@ -27,6 +27,20 @@ def generate(prop: str, run_seed: int, tier: str) -> dict[str, Any]:
     raise HarnessError(f"no generator for {prop}")
 
 
+def warmup() -> None:
+    """Import everything a run needs (so that no run pays for it) and check the seams exist."""
+    import scipy.stats  # noqa: F401
+    import torch  # noqa: F401
+
+    import cirkit.pipeline  # noqa: F401
+    import cirkit.symbolic.functional  # noqa: F401
+    import cirkit.templates.region_graph  # noqa: F401
+    from cirkit.backend.torch import compiler, queries  # noqa: F401
+
+    with simulation(0):
+        pass
+
+
 def _run_world(plan: dict[str, Any], tr: Trace) -> Any:
     prop = plan["prop"]
     if prop in WORLD_A:
